@@ -192,7 +192,13 @@ RV_<G_<NFT_, TC_, Manual, TRO_ HFSM2_IF_UTILITY_THEORY(, TR_, TU_, TG_), NSL_ HF
 	TransitionSets emptyTransitions;
 	PlanControl control{_core, emptyTransitions};
 
+	// entries below rewrite resumable prongs, keep the loaded ones
+	typename Base::CompoForks loadedResumable;
+	overwriteWith(loadedResumable, _core.registry.compoResumable);
+
 	_apex.deepEnter(control);
+
+	overwriteWith(_core.registry.compoResumable, loadedResumable);
 
 	HFSM2_IF_STRUCTURE_REPORT(udpateActivity());
 }
